@@ -572,10 +572,14 @@ func (txn *Txn) commitAndSend() (func() error, error) {
 	// var b strings.Builder
 	// fmt.Fprintf(&b, "Read: %d. Commit: %d. reads: %v. writes: %v. Keys: ",
 	// 	txn.readTs, commitTs, txn.reads, txn.conflictKeys)
-	for _, e := range txn.pendingWrites {
+	// duplicateWrites holds, in call order, the earlier writes of keys that were written
+	// again with another version; pendingWrites holds the latest write of every key. Entries
+	// are applied in slice order and a later Put of the same key@version overwrites an
+	// earlier one, so the older writes must go first for the latest call to win.
+	for _, e := range txn.duplicateWrites {
 		processEntry(e)
 	}
-	for _, e := range txn.duplicateWrites {
+	for _, e := range txn.pendingWrites {
 		processEntry(e)
 	}
 
